@@ -7,7 +7,7 @@ stays open; a truncation family cuts valid streams at random bytes.  Oracles: (1
 callback's (status, reason, version, fields, body) equals the reference parse, or the request fails where the
 RFC demands it; bytes after a complete response only ever serve the next queued request; (2) all
 segmentations agree."""
-import random
+import os, random
 import vlib
 from ref import http9112 as ref
 from ref import httporacle as ho
@@ -19,6 +19,10 @@ RULE = ("response scripts (directed catalogue + grammar-generated responses for 
         "non-trivial = the reference parser derives at least one complete final response or a must-fail verdict; distinct = hash of (requests, stream, end)")
 SIZES = dict(quick=900, thorough=45000)
 TRUNC = dict(quick=200, thorough=10000)
+# VERIF_THOROUGH_DIV=n divides the thorough case counts (to try the thorough command on a loaded machine); default 1
+_DIV = max(1, int(os.environ.get("VERIF_THOROUGH_DIV", "1") or "1"))
+SIZES["thorough"] = max(SIZES["quick"], SIZES["thorough"] // _DIV)
+TRUNC["thorough"] = max(TRUNC["quick"], TRUNC["thorough"] // _DIV)
 BATCH = 4000
 
 REG = dict(category="exploration",
